@@ -168,6 +168,21 @@ func main() {
 		ag, err := r.Load("frac/processor/aggregator.go")
 		if err != nil {
 			e.Missing("aggregator.go", err)
+		} else if fd := ag.Func("TwoSourceAggregator", "Next"); fd == nil {
+			e.Missing("groupNotExistsIncr", "TwoSourceAggregator.Next not found")
+		} else {
+			var incs []string
+			ast.Inspect(fd.Body, func(n ast.Node) bool {
+				if x, ok := n.(*ast.IncDecStmt); ok && strings.HasPrefix(ag.Render(x.X), "n.groupByNotExists[") {
+					incs = append(incs, ag.Render(x.X)+x.Tok.String())
+				}
+				return true
+			})
+			e.Strs("groupNotExistsIncr", incs, "TwoSourceAggregator.Next: tally of documents of a group without the field")
+			e.Bool("groupNotExistsPerBin", len(incs) == 1 && incs[0] == "n.groupByNotExists[AggBin[uint32]{MID: n.extractMID(seq.LID(lid)), Source: groupBySource}]++",
+				"the tally is keyed by the document's time bin (repaired) rather than by the source alone")
+		}
+		if ag == nil {
 		} else if fd := ag.Func("", "provideExtractTimeFunc"); fd == nil {
 			e.Missing("extractTimeRule", "provideExtractTimeFunc not found")
 		} else {
